@@ -101,10 +101,17 @@ def _edge_weight(F, b, p, e):
             w = 0
             for d in ds:
                 rv = d[4]
+                for _hop in range(3):      # `done = move _tmp` with `_tmp = Some(..)`
+                    if rv["k"] == "use" and rv["op"].get("k") in ("copy", "move") and not rv["op"]["place"]["p"]:
+                        d2 = defs.of(rv["op"]["place"]["l"])
+                        if len(d2) == 1 and d2[0][0] == "stmt":
+                            rv = d2[0][4]
+                            continue
+                    break
                 if rv["k"] == "use" and rv["op"].get("k") == "const" and str(rv["op"].get("text")) in ("true", "false"):
                     if (str(rv["op"]["text"]) == "true") == want:
                         w += max(1, len([p_ for p_ in b.preds()[d[1]] if not b.blocks[p_].get("cleanup")]))
-                elif rv["k"] == "agg" and "vidx" in rv["kind"] and not rv["kind"].get("fields", None) is None and len(ds) == 2:
+                elif rv["k"] == "agg" and "vidx" in rv["kind"] and not rv["kind"].get("fields", None) is None:
                     # an Option / two-variant flag assembled on two paths (`break 'l Some(i)` / `None`): only the assignment of
                     # the tested variant leads into this edge
                     if (rv["kind"]["vidx"] == 1) == want:
